@@ -163,6 +163,8 @@ def impl_split(script_dir, sep, s):
         sd = ScriptDirectory.from_config(cfg)
     except ValueError:
         return {"err": "ValueError"}
+    except Exception as e:  # anything else is a reported outcome, not a harness crash
+        return {"err": "raised:%s" % type(e).__name__}
     vl = sd.version_locations
     # `if self.version_locations:` - an empty list behaves like None (default versions directory)
     return {"locations": list(vl) if vl else None}
@@ -373,7 +375,7 @@ def flush(ctx, pending):
             want = [x for x in __import__("re").split(r"[ ,:]+", st["prepend"].replace("{root}", root)) if x]
             if [x for x in (impl["sys_path_new"] or []) if x] != want:
                 ctx.fail(inp, "prepend: prepend_sys_path %r puts %r in front of sys.path, listed %r" % (impl["prepend_option"], impl["sys_path_new"], want),
-                         impl=impl["sys_path_new"], tags=["prepend"])
+                         impl={"inserted": impl["sys_path_new"], "sys.path[:6]": impl.get("sys_path_head")}, tags=["prepend"])
         small = {"sourceless": inp["sourceless"], "recursive": inp["recursive"], "sep": inp["sep"], "locations": inp["plan"]["locations"]}
         # ---- model vs implementation ------------------------------------------------
         impl_vl = impl["version_locations"] or None
@@ -628,6 +630,8 @@ def stream_loadfile(ctx):
                 return "importError"
             except AssertionError:
                 return "assertFalse"
+            except Exception as e:  # whatever else the implementation does is a reported outcome
+                return "raised:" + type(e).__name__
 
         for stem, have in combos:
             legacy = have["pyc"] or (legacy_suffix_pyo and have["pyo"])
